@@ -21,6 +21,8 @@ def view(case, events, info):
         if not distinct or distinct[-1] != t:
             distinct.append(t)
     return {'clock_instants': distinct, 'gt': info.get('gt'),
+            # the instants at which a row is emitted (the emit schedule lives on the same grid as the events)
+            'emit_instants': [ev.get('gt', ev.get('t')) for ev in events if ev['e'] == 'emit'],
             'abnormal': info.get('raised') or ('timeout' if info.get('timeout') else None)}
 
 
